@@ -50,6 +50,11 @@ CHECKS['C09'] = dict(cat='model_checking', ref='5/C09',
     note='The file-size limit leaves exactly N bytes written (kill by SIGXFSZ or EFBIG write error give the same disk state); operating-system crashes (unsynced data) are out of scope.',
     tech='TLA+ protocol model with crash points; TLC enumeration of cases; byte-offset fault injection on the real code; TLC evaluation of formulas on observations')
 
+CHECKS['C18'] = dict(cat='model_checking', ref='5/C18',
+    text='spec/K8sShards.tla gives Shards(), ChangeScale() and Replicas() as operators; TLC enumerates every case of a bounded space (old count incl. unset, new count, 0-2 (thorough 3) claim templates, deletion flag, claim sets with a missing and a foreign claim; every permutation of up to 3 (thorough 5) pods with address patterns and gaps; pairs of StatefulSet status triples), checks C18 on the predictions, and each case is executed on the real manager over a client-go fake clientset (pod list order forced by a reactor); resulting objects, number of StatefulSet writes, shard order/address/readiness and the managers returned must equal the prediction and satisfy C18 as evaluated by TLC (K8sEval).',
+    note='The fake clientset stands in for the API server; a neighbouring StatefulSet claim with a similar name is planted to detect over-deletion.',
+    tech='TLA+ operators; TLC exhaustive case enumeration; replay on real manager with fake clientset; TLC evaluation of formulas on observations')
+
 ALL = ['C%02d' % i for i in range(1, 21)]
 
 
